@@ -100,6 +100,28 @@ CLAIMED = {
         note=NOTE_COMMON + " That rapidfuzz computes the minimum-weight edit script (and its default dtype is wide enough) is an assumed "
              "contract of a C++ extension, as is scipy squareform.",
         technique="contract-based deductive verification: loop invariants (non-linear integer arithmetic) + assumed library contracts", design="5/C08"),
+    "C05": dict(
+        text="pcDelta is verified in all mode combinations (self / cross, given or default metric, given / default / zero bins, normalize, "
+             "pseudocount, maxseqs; list, table and legacy tuple inputs): bins=0 returns pc of the same arguments before any down-sampling; "
+             "otherwise the result is, as a term over the assumed library operations, exactly histogram(metric.calc_pdist_vector(s)) for one "
+             "collection (condensed vector: one entry per unordered pair, by C08) or histogram(metric.calc_cdist_matrix(s, s2)) for two, h, "
+             "h/sum(h) or (h+c)/(sum(h)+2c); s is the input or a sub-sample of exactly maxseqs elements at distinct positions (downsample); "
+             "the default metric is chosen by the columns present; load_pcDelta_background's bins are checked on the shipped CSV (0..rows).",
+        note=NOTE_COMMON + " numpy.histogram (bin convention), pandas sample / numpy choice (uniformity), Metric methods of arbitrary metric "
+             "objects are assumed / opaque; which sub-sample is drawn is random and not decided.",
+        technique="contract-based deductive verification: term-level post-conditions over assumed library contracts + ground check of shipped data",
+        design="5/C05"),
+    "C20": dict(
+        text="Every function of the package (117) gets a frame obligation from an origin analysis of the real AST: each in-place store, "
+             "augmented assignment, mutating method call, inplace=True or mutating library call must target an object created by the call "
+             "(not a parameter, a default-argument object or module state); the one module-level write (nn._cal_params) is shown benign "
+             "(written at the top of _to_triplets before any reader can run or a worker pool is created); no source of nondeterminism other "
+             "than numpy's generator is imported. Functions under contract additionally carry ownership-based frame obligations in the VC generator.",
+        note=NOTE_COMMON + " The fresh / aliasing / mutating classification of library calls is an assumed table (pyvc/frame.py); the step from "
+             "'every frame is empty' to 'results do not depend on call history' is a stated meta-lemma, not mechanised; list ORDER across "
+             "interpreters (hash randomisation) is not decided.",
+        technique="contract-based frame conditions: origin / may-alias analysis over the real AST (no solver) + frame replays",
+        design="5/C20"),
 }
 NOT_BUILT = "machinery for this property not built yet (build in progress; see DESIGN.md section 8)"
 
